@@ -95,6 +95,14 @@ MUTANTS = {
                                   "    def mem_u_unpriv_get(self, address, size):\n        return self.mem_u_with_priv_get(address, size, self.registers.current_mode_is_not_user())", ['C19']),
     'cps_mode_change_in_user': (OPS + 'cps_arm.py', "        if processor.registers.current_mode_is_not_user():\n            cpsr_val = processor.registers.cpsr.value",
                                 "        if True:\n            cpsr_val = processor.registers.cpsr.value\n            if self.change_mode and not processor.registers.current_mode_is_not_user():\n                processor.registers.cpsr.m = self.mode if not processor.registers.bad_mode(self.mode) else processor.registers.cpsr.m", ['C19']),
+    'subs_pc_lr_arm_no_restore': (OPS + 'subs_pc_lr_arm.py', "                processor.registers.cpsr_write_by_instr(processor.registers.get_spsr(), 0b1111, True)\n                if processor.registers.cpsr.m == 0b11010 and", "                if processor.registers.cpsr.m == 0b11010 and", ['C12']),
+    'return_keeps_it_bits': (R, "        if bit_at(bytemask, 1):\n            if is_excp_return:\n                self.cpsr.value = set_substring(self.cpsr.value, 15, 10, substring(value, 15, 10))\n", "        if bit_at(bytemask, 1):\n", ['C12', 'C08']),
+    'irq_lr_off_by_4': (R, "    def take_physical_irq_exception(self):\n        new_lr_value = self.get_pc() if self.cpsr.t else bits_ops.sub(self.get_pc(), 4, 32)", "    def take_physical_irq_exception(self):\n        new_lr_value = self.get_pc() if self.cpsr.t else self.get_pc()", ['C12', 'C11']),
+    'nmfi_ignored': (R, "            if (privileged and (not nmfi or not bit_at(value, 6)) and", "            if (privileged and", ['C12']),
+    'wfe_ignores_event_register': (OPS + 'wfe.py', "            if processor.event_registered():\n                processor.clear_event_register()\n            else:", "            if False:\n                processor.clear_event_register()\n            else:", ['C12']),
+    'cpacr_01_allows_user': (V, "                elif self.registers.cpacr.get_cp_n(cp_num) == 0b01:\n                    if not self.registers.current_mode_is_not_user():\n                        raise UndefinedInstructionException()", "                elif self.registers.cpacr.get_cp_n(cp_num) == 0b01:\n                    pass", ['C12']),
+    'rfe_wback_before_load': (OPS + 'rfe.py', "                new_pc_value = processor.mem_a_get(address, 4)\n                spsr_value = processor.mem_a_get(add(address, 4, 32), 4)", "                new_pc_value = processor.mem_a_get(address, 4)\n                spsr_value = processor.mem_a_get(add(address, 4, 32), 4) & ~0x1F | processor.registers.cpsr.m", ['C12']),
+    'msr_aw_ignored': (R, "            if privileged and (self.is_secure() or self.scr.aw or have_virt_ext()):", "            if privileged:", ['C12']),
     'keyerror_for_ap_100': (V, "        elif perms.ap == 0b100:\n            print('unpredictable')", "        elif perms.ap == 0b100:\n            abort = {}[perms.ap]", ['C18']),
     'stale_opcode_len_reuse': (V, "        elif self.registers.current_instr_set() == InstrSet.THUMB:\n            self.opcode_len = 2\n            self.opcode = self.mem_a_get(self.registers.pc_store_value(), self.opcode_len)",
                                "        elif self.registers.current_instr_set() == InstrSet.THUMB:\n            self.opcode_len = 2 if self.opcode_len != 1 else 4\n            self.opcode = self.mem_a_get(self.registers.pc_store_value(), 2)", []),
